@@ -4,7 +4,7 @@ import OFCore.Props.C05
 # C12 — a described situation becomes exactly that simulation
 
 Theorems about the model `OFCore/Builder.lean` (the REPAIRED builder, fixes C12a … C12f, C12gh,
-C12i, C12k, C12l), for all
+C12i, C12j, C12k, C12l, C12n, C12-errclass-axes), for all
 tax-benefit systems and all documents, of any size.  `Holder.set_input` is a parameter
 (`SetInput`); what is assumed of it is stated where it is used (`SetInputOK`).
 -/
@@ -19,9 +19,11 @@ open Bld in
 /-- **C12_value_placed** (person entity).  Whatever the document, if the persons are accepted,
 then for every instance, every variable entry of it and every `(period key, value)` pair with a
 non-null value — provided no later pair of the same entry spells the same period and no later
-entry of the instance repeats the variable — the array buffered under
-`(variable, canonical text of the period the key denotes)` has one slot per declared person and
-holds the value, converted by `checkSetValue`, at the index of the instance. -/
+entry of the instance repeats the variable — the array buffered (`resolveKeys`: `get_buffer_key`)
+under `(variable, canonical text of the period the key denotes)` has one slot per declared person
+and holds the value, converted by `checkSetValue`, at the index of the instance.  For a variable
+that is not defined for eternity; an eternal variable has ONE entry whatever the keys:
+`C12_eternal_one_entry`. -/
 theorem C12_value_placed (sys : Sys) (dp : Option String) (kvs : List (DKey × Doc))
     (ids : List String) (ws : List Write) (h : addPersonEntity sys dp (.obj kvs) = .ok (ids, ws))
     (ipre ipost : List (DKey × Doc)) (idk : DKey) (vars : List (DKey × Doc))
@@ -29,17 +31,19 @@ theorem C12_value_placed (sys : Sys) (dp : Option String) (kvs : List (DKey × D
     (hids : ∀ kv ∈ ipost, kv.1.text ≠ idk.text)
     (vpre vpost : List (DKey × Doc)) (vk : DKey) (vd : Doc) (hvars : vars = vpre ++ (vk, vd) :: vpost)
     (hvk : ∀ kv ∈ vpost, kv.1.text ≠ vk.text)
-    (var : Var) (hvar : sys.var? vk.text = some var)
+    (var : Var) (hvar : sys.var? vk.text = some var) (hne : var.defUnit ≠ .eternity)
     (pvs ppre ppost : List (DKey × Doc)) (hp : variablePairs dp vd = some pvs)
     (k : DKey) (x : Doc) (hpvs : pvs = ppre ++ (k, x) :: ppost) (hx : x.isNull = false)
     (p : Period) (hk : parseKey k = .ok p)
     (hlater : ∀ kx ∈ ppost, canonKey kx.1 = .ok p.text → kx.2.isNull = true) :
     ids = kvs.map (fun kv => kv.1.text) ∧
     ∃ val arr, checkSetValue var x = .ok val ∧
-      alGet (applyWrites [] ws) (var.name, p.text) = some arr ∧
+      alGet (applyWrites [] (resolveKeys sys ws)) (var.name, p.text) = some arr ∧
       arr.length = kvs.length ∧ arr[ids.idxOf idk.text]? = some val := by
   obtain ⟨hidseq, wss, hm, rfl⟩ := addPersonEntity_ok h
   refine ⟨hidseq, ?_⟩
+  have hdated : isEternal sys var.name = false := by
+    rw [isEternal_of_var (by rw [Sys.var?_name hvar]; exact hvar)]; exact decide_eq_false hne
   have hck : canonKey k = .ok p.text := by unfold canonKey; rw [hk]; rfl
   subst hkvs
   obtain ⟨wss₁, wss₂, h1, h2, rfl⟩ := mapE_append_ok _ ipre ((idk, .obj vars) :: ipost) wss hm
@@ -75,7 +79,7 @@ theorem C12_value_placed (sys : Sys) (dp : Option String) (kvs : List (DKey × D
     (by intro a ha; cases ha)
     (List.idxOf_lt_length_of_mem hidmem) hno
   refine ⟨val, arr, hval, ?_, ?_, hv'⟩
-  · rw [hdecomp]; exact harr
+  · rw [alGet_resolveKeys sys _ hdated, hdecomp]; exact harr
   · rw [hl', hlen]
 end OFCore
 namespace OFCore.Bld
@@ -90,14 +94,16 @@ for that variable and period — if some other person declared one — holds the
 at that person's index. -/
 theorem C12_value_default (sys : Sys) (dp : Option String) (kvs : List (DKey × Doc))
     (ids : List String) (ws : List Write) (h : addPersonEntity sys dp (.obj kvs) = .ok (ids, ws))
-    (id : String) (hid : id ∈ ids) (var : Var) (hvar : sys.var? var.name = some var) (ck : List Char)
+    (id : String) (hid : id ∈ ids) (var : Var) (hvar : sys.var? var.name = some var)
+    (hne : var.defUnit ≠ .eternity) (ck : List Char)
     (hnone : ∀ idk vars, (idk, Doc.obj vars) ∈ kvs → idk.text = id → ∀ vk vd, (vk, vd) ∈ vars →
       vk.text = var.name → ∀ pvs, variablePairs dp vd = some pvs →
       ∀ kx ∈ pvs, canonKey kx.1 = .ok ck → kx.2.isNull = true) :
-    ∀ arr, alGet (applyWrites [] ws) (var.name, ck) = some arr →
+    ∀ arr, alGet (applyWrites [] (resolveKeys sys ws)) (var.name, ck) = some arr →
       arr.length = kvs.length ∧ arr[ids.idxOf id]? = some var.default := by
   obtain ⟨hids, wss, hm, rfl⟩ := addPersonEntity_ok h
   intro arr harr
+  rw [alGet_resolveKeys sys _ (by rw [isEternal_of_var hvar]; exact decide_eq_false hne)] at harr
   have := entity_value_default (person_instWrites hm) hids id hid var hvar ck hnone arr harr
   refine ⟨?_, this.2⟩
   rw [this.1, hids]; simp
@@ -114,7 +120,7 @@ theorem C12_value_placed_group (sys : Sys) (dp : Option String) (g : GroupKind) 
     (hkvs : kvs = ipre ++ (gk, .obj ikvs) :: ipost) (hpost : ∀ kv ∈ ipost, kv.1.text ≠ gk.text)
     (vpre vpost : List (DKey × Doc)) (vk : DKey) (vd : Doc)
     (hvars : variablesJson g ikvs = vpre ++ (vk, vd) :: vpost) (hvk : ∀ kv ∈ vpost, kv.1.text ≠ vk.text)
-    (var : Var) (hvar : sys.var? vk.text = some var)
+    (var : Var) (hvar : sys.var? vk.text = some var) (hne : var.defUnit ≠ .eternity)
     (pvs ppre ppost : List (DKey × Doc)) (hp : variablePairs dp vd = some pvs)
     (k : DKey) (x : Doc) (hpvs : pvs = ppre ++ (k, x) :: ppost) (hx : x.isNull = false)
     (p : Period) (hk : parseKey k = .ok p)
@@ -135,15 +141,16 @@ theorem C12_value_placed_group (sys : Sys) (dp : Option String) (g : GroupKind) 
   have hidx : (kvs.map (fun kv => kv.1.text)).idxOf gk.text < arr.length := by
     rw [hlen]; apply List.idxOf_lt_length_of_mem; rw [hkvs]; simp
   have helen : e.ids.length = kvs.length + acc.toAlloc.length := by rw [hids]; simp
+  have hv : sys.var? var.name = some var := by rw [Sys.var?_name hvar]; exact hvar
+  have hdated : isEternal sys var.name = false := by rw [isEternal_of_var hv]; exact decide_eq_false hne
   by_cases hl : acc.toAlloc = []
   · rw [if_pos hl] at hbuf'
-    refine ⟨val, arr, hval, by rw [hbuf', hws]; exact harr, ?_, hget, ?_⟩
+    refine ⟨val, arr, hval, by rw [hbuf', hws, alGet_resolveKeys sys _ hdated]; exact harr, ?_, hget, ?_⟩
     · rw [hlen, helen, hl]; simp
     · intro j h1 h2; rw [helen, hl] at h2; simp at h2; omega
   · rw [if_neg hl] at hbuf'
-    have hv : sys.var? var.name = some var := by rw [Sys.var?_name hvar]; exact hvar
     refine ⟨val, arr ++ List.replicate (e.ids.length - arr.length) var.default, hval, ?_, ?_, ?_, ?_⟩
-    · rw [hbuf', alGet_padBuffer, hws, harr]
+    · rw [hbuf', alGet_padBuffer, hws, alGet_resolveKeys sys _ hdated, harr]
       simp only [Option.map_some, padFn, hv, hent, if_true]
     · rw [List.length_append, List.length_replicate, hlen, hglen, helen]; omega
     · rw [List.getElem?_append_left hidx]; exact hget
@@ -153,6 +160,85 @@ theorem C12_value_placed_group (sys : Sys) (dp : Option String) (g : GroupKind) 
       simp only [ite_eq_left_iff, reduceCtorEq, imp_false, Decidable.not_not]
       omega
 
+
+open Bld in
+/-- **C12_eternal_one_entry** (repair C12j).  A variable defined for eternity holds one value per
+instance whatever period it is given for: all its inputs are buffered in ONE entry, under the key of
+the first of them in document order (`resolveKeys`), so that a value given under a dated key by one
+instance and a value given under `ETERNITY` by another are both kept — the last write of an instance
+is what the entry holds at that instance's index, and no second entry of the variable exists that a
+later flush could write over it. -/
+theorem C12_eternal_one_entry (sys : Sys) (ws : List Write) (v : String) (hv : isEternal sys v = true) :
+    (∀ w ∈ resolveKeys sys ws, ∀ w' ∈ resolveKeys sys ws, w.var = v → w'.var = v → w.key = w'.key) ∧
+    (∀ (pre post : List Write) (w : Write) (n : Nat), ws = pre ++ w :: post → w.var = v →
+      (∀ w' ∈ ws, w'.var = v → w'.size = n) → w.idx < n →
+      (∀ w' ∈ post, w'.var = v → w'.idx ≠ w.idx) →
+      ∃ k arr, firstKeyOf ws v = some k ∧ alGet (applyWrites [] (resolveKeys sys ws)) (v, k) = some arr ∧
+        arr.length = n ∧ arr[w.idx]? = some w.val ∧
+        ∀ k', k' ≠ k → alGet (applyWrites [] (resolveKeys sys ws)) (v, k') = none) := by
+  have hkey := resolveKeys_key sys ws v hv
+  refine ⟨?_, ?_⟩
+  · intro w hw w' hw' h1 h2
+    have e1 := hkey w hw h1
+    have e2 := hkey w' hw' h2
+    rw [← e2] at e1
+    exact Option.some.inj e1
+  · intro pre post w n hws hwv hsized hidx hlast
+    have hwmem : w ∈ ws := by rw [hws]; simp
+    obtain ⟨k, hk⟩ := firstKeyOf_some hwmem
+    rw [hwv] at hk
+    refine ⟨k, ?_⟩
+    -- the resolved list, split at `w`
+    let g : Write → Write := fun w => if isEternal sys w.var then { w with key := (firstKeyOf ws w.var).getD w.key } else w
+    have hres : resolveKeys sys ws = pre.map g ++ g w :: post.map g := by
+      show ws.map g = _
+      rw [hws, List.map_append, List.map_cons]
+    have hgvar : ∀ x, (g x).var = x.var := resolveKeys_var sys ws
+    have hgidx : ∀ x, (g x).idx = x.idx := by intro x; show (if _ then _ else _ : Write).idx = _; split <;> rfl
+    have hgval : ∀ x, (g x).val = x.val := by intro x; show (if _ then _ else _ : Write).val = _; split <;> rfl
+    have hgsize : ∀ x, (g x).size = x.size := by intro x; show (if _ then _ else _ : Write).size = _; split <;> rfl
+    have hgw : (g w).cell = (v, k) := by
+      show ((if _ then _ else _ : Write).var, (if _ then _ else _ : Write).key) = _
+      rw [hwv, hv]; simp only [if_true, hk, Option.getD_some, hwv]
+    have hmemres : ∀ x ∈ pre.map g ++ g w :: post.map g, ∃ x₀ ∈ ws, x = g x₀ := by
+      intro x hx
+      rw [← hres] at hx
+      obtain ⟨x₀, hx₀, rfl⟩ := List.mem_map.mp hx
+      exact ⟨x₀, hx₀, rfl⟩
+    obtain ⟨arr, harr, hlen, hval⟩ := applyWrites_last (pre.map g) (post.map g) (g w) n []
+      (by
+        intro x hx hc
+        obtain ⟨x₀, hx₀, rfl⟩ := hmemres x hx
+        rw [hgsize]
+        apply hsized x₀ hx₀
+        have := congrArg Prod.fst hc
+        rw [hgw] at this
+        simpa [Write.cell, hgvar] using this)
+      (by intro a ha; cases ha)
+      (by rw [hgidx]; exact hidx)
+      (by
+        intro x hx hc
+        obtain ⟨x₀, hx₀, rfl⟩ := List.mem_map.mp hx
+        have h1 : x₀.var = v := by
+          have := congrArg Prod.fst hc.1
+          rw [hgw] at this
+          simpa [Write.cell, hgvar] using this
+        have := hc.2
+        rw [hgidx, hgidx] at this
+        exact hlast x₀ hx₀ h1 this)
+    rw [hgw, ← hres] at harr
+    rw [hgidx, hgval] at hval
+    refine ⟨arr, hk, harr, hlen, hval, ?_⟩
+    intro k' hk'
+    rw [alGet_applyWrites_frame (v, k') (resolveKeys sys ws) []]
+    · rfl
+    · intro x hx hc
+      have hxv : x.var = v := by have := congrArg Prod.fst hc; simpa [Write.cell] using this
+      have := hkey x hx hxv
+      rw [hk] at this
+      have hxk : x.key = k' := by have := congrArg Prod.snd hc; simpa [Write.cell] using this
+      rw [hxk] at this
+      exact hk' (Option.some.inj this)
 end OFCore
 namespace OFCore.Bld
 
@@ -582,33 +668,56 @@ namespace OFCore.Bld
 end OFCore.Bld
 namespace OFCore
 open Bld in
-/-- The statement for `build_from_dict`, proved for documents none of whose top-level keys is a
-singular entity key or a variable name (the fully specified shape and the fall-through of repair
-C12d).  Full statement: the same for every document, with `InstEq` on the entries under a singular
-key (short form) and `VarDocEq` on the entries under a variable name (variables-only form).
-Missing: the lifting of `setInputDoc_congr` through `buildFromVariables` and of
-`buildFromEntities_congr` through `explicitSingular`. -/
-theorem C12_spelling_invariant_dict_partial (sys : Sys) (dp : Option String) (si : SetInput)
-    (kvs kvs' : List (DKey × Doc)) (h : All₂ TopEq kvs kvs') (hne : kvs ≠ [])
-    (hk : kvs.any (fun kv => keyIn (sys.singulars.map (·.1)) kv.1) = false)
-    (hv : kvs.any (fun kv => keyIn (sys.vars.map (·.name)) kv.1) = false) :
+/-- **C12_spelling_invariant_dict** (the statement for `build_from_dict`, every shape).  Two
+documents with the same keys everywhere except period keys, where corresponding period keys denote
+the same period (`parseKey k = parseKey k'`) and carry equal values, give the same result — the same
+simulation or the same refusal — whatever the shape the dispatch recognises (`DictEq` reads the entry
+under a key the way that shape does): short form (an instance under a singular entity key, lifted
+through `explicit_singular_entities`), fully specified form and the fall-through of repair C12d
+(instances under an entity plural), variables-only form (`{period: values}` under a variable name,
+lifted through `build_from_variables`). -/
+theorem C12_spelling_invariant_dict (sys : Sys) (dp : Option String) (si : SetInput)
+    (kvs kvs' : List (DKey × Doc)) (h : All₂ (DictEq sys kvs) kvs kvs') :
     buildFromDict sys dp si (.obj kvs) = buildFromDict sys dp si (.obj kvs') := by
-  have hkey := fun f => all₂_any_key (Rel := TopEq) (fun _ _ h => h.1) f h
+  have hkeyrel : All₂ (fun a b : DKey × Doc => a.1 = b.1) kvs kvs' := All₂.imp (fun _ _ h => h.1) h
+  have hkey := fun f => all₂_any_key (Rel := fun a b : DKey × Doc => a.1 = b.1) (fun _ _ h => h) f hkeyrel
   have hall : kvs.all (fun kv => isEntityKey sys kv.1) = kvs'.all (fun kv => isEntityKey sys kv.1) := by
-    clear hne hk hv hkey
-    induction h with
+    clear h hkey
+    induction hkeyrel with
     | nil => rfl
-    | cons hab _ ih => simp [List.all_cons, hab.1, ih]
-  have hne' : kvs' ≠ [] := by
-    intro e; rw [e] at h; cases h; exact hne rfl
-  have he : kvs.isEmpty = false := by cases kvs with | nil => exact absurd rfl hne | cons _ _ => rfl
-  have he' : kvs'.isEmpty = false := by cases kvs' with | nil => exact absurd rfl hne' | cons _ _ => rfl
+    | cons hab _ ih => simp [List.all_cons, hab, ih]
+  have hemp : kvs.isEmpty = kvs'.isEmpty := by
+    cases hkeyrel with
+    | nil => rfl
+    | cons _ _ => rfl
   unfold buildFromDict
   simp only [Doc.asObj?]
   rw [← hkey isIntKey, ← hkey (fun k => keyIn (sys.singulars.map (·.1)) k),
-    ← hkey (fun k => keyIn (sys.vars.map (·.name)) k), ← hall, hk, hv, he, he']
-  simp only [Bool.false_eq_true, if_false, false_or, Bool.not_false, true_and]
-  rw [buildFromEntities_congr sys dp si kvs kvs' h]
+    ← hkey (fun k => keyIn (sys.vars.map (·.name)) k), ← hall, ← hemp]
+  by_cases hi : kvs.any (fun kv => isIntKey kv.1) = true
+  · rw [if_pos hi, if_pos hi]
+  · rw [if_neg hi, if_neg hi]
+    by_cases hs : kvs.any (fun kv => keyIn (sys.singulars.map (·.1)) kv.1) = true
+    · rw [if_pos hs, if_pos hs]
+      have hshort : All₂ (ShortEq sys) kvs kvs' :=
+        All₂.imp (fun a b hab => ⟨hab.1, by have := hab.2; rw [if_pos hs] at this; exact this⟩) h
+      exact buildFromEntities_congr sys dp si _ _ (explicitSingular_rel sys hshort)
+    · rw [if_neg hs, if_neg hs]
+      by_cases hf : (!kvs.isEmpty) = true ∧ kvs.all (fun kv => isEntityKey sys kv.1) = true
+      · rw [if_pos hf, if_pos hf]
+        have htop : All₂ TopEq kvs kvs' :=
+          All₂.imp (fun a b hab => ⟨hab.1, by have := hab.2; rw [if_neg hs, if_pos hf] at this; exact this⟩) h
+        exact buildFromEntities_congr sys dp si _ _ htop
+      · rw [if_neg hf, if_neg hf]
+        by_cases hv : kvs.isEmpty = true ∨ kvs.any (fun kv => keyIn (sys.vars.map (·.name)) kv.1) = true
+        · rw [if_pos hv, if_pos hv]
+          have hvars : All₂ EntryEq kvs kvs' :=
+            All₂.imp (fun a b hab => ⟨hab.1, by have := hab.2; rw [if_neg hs, if_neg hf, if_pos hv] at this; exact this⟩) h
+          exact buildFromVariables_congr sys dp si _ _ hvars
+        · rw [if_neg hv, if_neg hv]
+          have htop : All₂ TopEq kvs kvs' :=
+            All₂.imp (fun a b hab => ⟨hab.1, by have := hab.2; rw [if_neg hs, if_neg hf, if_neg hv] at this; exact this⟩) h
+          exact buildFromEntities_congr sys dp si _ _ htop
 end OFCore
 namespace OFCore.Bld
 
@@ -630,7 +739,8 @@ open Bld in
 followed by the running index `c·n + i`; the roles of every copy are the prototype's; the
 memberships of copy `c` are the prototype's shifted by `c` times the number of groups;
 (2) when an axis is laid (`layAxis` succeeds, index inside the prototype, array buffered at
-prototype size or absent), the array of its variable at its period is the concatenation over the
+prototype size or absent; a variable that is not eternal — an eternal one is laid on its single
+entry, `bufferKey`), the array of its variable at its period is the concatenation over the
 copies of the prototype array with the axis value of that copy on the indexed instance — and no
 other buffered array changes (they are replicated when flushed: `callStep` tiles). -/
 theorem C12_axes_concat :
@@ -643,7 +753,7 @@ theorem C12_axes_concat :
     (∀ (sys : Sys) (dp : Option String) (entKey : String) (step cell cnt : Nat) (multi : Bool)
       (coords : List Nat) (buf buf' : Buffer) (a : Axis) (var : Var) (ck : List Char) (proto : Vec),
       layAxis sys dp entKey step cell cnt multi coords buf a = .ok buf' →
-      sys.var? a.name = some var →
+      sys.var? a.name = some var → var.defUnit ≠ .eternity →
       ∀ (k : DKey), axisKey dp a = some k → canonKey k = .ok ck → a.index < step →
       ((alGet buf (a.name, ck) = none ∧ proto = List.replicate step var.default) ∨
        (alGet buf (a.name, ck) = some proto ∧ proto.length = step)) →
@@ -664,14 +774,17 @@ theorem C12_axes_concat :
       unfold expandEnt Ent.count
       simp only [hp, Bool.false_eq_true, if_false]
       exact memb_copies e.memb e.ids.length cell
-  · intro sys dp entKey step cell cnt multi coords buf buf' a var ck proto h hvar k hkey hck hidx hproto
+  · intro sys dp entKey step cell cnt multi coords buf buf' a var ck proto h hvar hne k hkey hck hidx hproto
+    have hdated : isEternal sys a.name = false := by
+      have hn := Sys.var?_name hvar
+      rw [← hn, isEternal_of_var (by rw [hn]; exact hvar)]; exact decide_eq_false hne
     unfold layAxis at h
     rw [hvar] at h
     simp only at h
     split at h
     · cases h
     · rw [hkey] at h
-      simp only [hck] at h
+      simp only [hck, bufferKey_of_not_eternal hdated] at h
       split at h
       · cases h
       · cases hm : mapE (fun c => axisCast var (axisValue a cnt c)) coords with
@@ -697,6 +810,82 @@ theorem C12_axes_concat :
               · exact hl
             refine ⟨?_, fun k hk => alGet_alSet_ne _ _ _ _ hk⟩
             rw [alGet_alSet_same, strideSet_copies proto vals arr' a.index step cell hl hidx hs]
+
+open Bld in
+/-- **C12_axes_parallel_concat.**  Any number of parallel axes (one list of `axes`; also the
+parallel axes of one perpendicular dimension): when the whole list is laid (`foldE layAxis`
+succeeds), none of its variables is eternal and no two of its axes write the same variable at the same
+period (`axisCell`: variable, canonical period text), then EVERY axis of the list — with its index inside the prototype and its
+array buffered at prototype size or absent BEFORE the expansion — ends with the concatenation over
+the copies of its prototype array carrying that copy's axis value on the indexed instance, and every
+buffered array no axis of the list names is left as it was. -/
+theorem C12_axes_parallel_concat (sys : Sys) (dp : Option String) (entKey : String) (step cell cnt : Nat)
+    (multi : Bool) (coords : List Nat) :
+    ∀ (axes : List Axis) (buf buf' : Buffer),
+    foldE (layAxis sys dp entKey step cell cnt multi coords) buf axes = .ok buf' →
+    (axes.map (axisCell dp)).Nodup → (∀ a ∈ axes, isEternal sys a.name = false) →
+    (∀ a ∈ axes, ∀ (var : Var) (ck : List Char) (proto : Vec),
+      sys.var? a.name = some var → axisCell dp a = some (a.name, ck) → a.index < step →
+      ((alGet buf (a.name, ck) = none ∧ proto = List.replicate step var.default) ∨
+       (alGet buf (a.name, ck) = some proto ∧ proto.length = step)) →
+      ∃ vals, mapE (fun c => axisCast var (axisValue a cnt c)) coords = .ok vals ∧
+        alGet buf' (a.name, ck) = some (copies cell (fun c =>
+          proto.set a.index (vals.getD c (proto.getD a.index default))))) ∧
+    (∀ k, (∀ a ∈ axes, axisCell dp a ≠ some k) → alGet buf' k = alGet buf k)
+  | [], buf, buf', h, _, _ => by
+    cases h
+    exact ⟨fun a ha => (by cases ha), fun _ _ => rfl⟩
+  | a :: rest, buf, buf', h, hnd, hdated => by
+    obtain ⟨buf₁, h1, h2⟩ := foldE_cons_ok _ buf buf' a rest h
+    obtain ⟨c', c, hc, _, hcc, hframe'⟩ := layAxis_frame h1
+    have hcc' : c' = c := hcc (hdated a List.mem_cons_self)
+    have hframe : ∀ k, k ≠ c → alGet buf₁ k = alGet buf k := by rw [← hcc']; exact hframe'
+    simp only [List.map_cons, List.nodup_cons] at hnd
+    obtain ⟨hnotin, hnd'⟩ := hnd
+    obtain ⟨ihax, ihframe⟩ := C12_axes_parallel_concat sys dp entKey step cell cnt multi coords rest buf₁ buf' h2 hnd'
+      (fun a' ha' => hdated a' (List.mem_cons_of_mem _ ha'))
+    have hcrest : ∀ a' ∈ rest, axisCell dp a' ≠ some c := by
+      intro a' ha' e
+      apply hnotin
+      rw [hc, ← e]
+      exact List.mem_map.mpr ⟨a', ha', rfl⟩
+    refine ⟨?_, ?_⟩
+    · intro a' ha' var ck proto hvar hcell hidx hproto
+      rcases List.mem_cons.mp ha' with rfl | ha'
+      · -- the head: laid now, untouched afterwards
+        have hkey : ∃ k, axisKey dp a' = some k ∧ canonKey k = .ok ck := by
+          unfold axisCell at hcell
+          cases hk : axisKey dp a' with
+          | none => rw [hk] at hcell; cases hcell
+          | some k =>
+            rw [hk] at hcell
+            simp only at hcell
+            cases hck : canonKey k with
+            | error e => rw [hck] at hcell; cases hcell
+            | ok ck' =>
+              rw [hck] at hcell
+              simp only [Option.some.injEq, Prod.mk.injEq, true_and] at hcell
+              exact ⟨k, rfl, by rw [hck, hcell]⟩
+        obtain ⟨k, hk1, hk2⟩ := hkey
+        have hne : var.defUnit ≠ .eternity := by
+          have hd := hdated a' List.mem_cons_self
+          have hn := Sys.var?_name hvar
+          rw [← hn, isEternal_of_var (by rw [hn]; exact hvar)] at hd
+          exact of_decide_eq_false hd
+        obtain ⟨vals, hvals, hget, _⟩ := C12_axes_concat.2 sys dp entKey step cell cnt multi coords buf buf₁ a' var ck proto
+          h1 hvar hne k hk1 hk2 hidx hproto
+        refine ⟨vals, hvals, ?_⟩
+        rw [ihframe (a'.name, ck) (fun a'' ha'' => by
+          have := hcrest a'' ha''; rw [hc] at hcell; cases hcell; exact this)]
+        exact hget
+      · -- an axis of the rest: its prototype array is still what it was
+        have hne : (a'.name, ck) ≠ c := by
+          intro e; exact hcrest a' ha' (by rw [hcell, e])
+        have hsame : alGet buf₁ (a'.name, ck) = alGet buf (a'.name, ck) := hframe _ hne
+        exact ihax a' ha' var ck proto hvar hcell hidx (by rw [hsame]; exact hproto)
+    · intro k hk
+      rw [ihframe k (fun a' ha' => hk a' (List.mem_cons_of_mem _ ha'))]
+      exact hframe k (fun e => hk a List.mem_cons_self (by rw [hc, e]))
 end OFCore
 namespace OFCore.Bld
 
@@ -1062,6 +1251,211 @@ theorem C12_refuses (sys : Sys) (hsys : sys.RolesOK) (dp : Option String) (param
         · rename_i pids pws hp
           exact C12_refuses_person_input sys dp kvs idk vars hi vk vd hv hbad (pids, pws) hp
 end OFCore
+namespace OFCore
+
+open Bld in
+/-- **C12_canon_key.**  The buffer key is canonical: whatever the spelling `k` of a period `p`
+(well-formed, aligned to its own unit, four-digit years — what every spelling of the quantifier
+denotes), the key under which its value is buffered is `p`'s own text, that text read again as a key
+lands on the same key (canonicalisation is idempotent), and any two spellings of one period land on
+one key. -/
+theorem C12_canon_key (k : DKey) (p : Period) (hk : parseKey k = .ok p)
+    (hwf : p.WF) (hal : OwnAligned p) (hdom : InTextDomain p) :
+    canonKey k = .ok p.text ∧
+    canonKey (.s (String.ofList p.text)) = .ok p.text ∧
+    (∀ k', parseKey k' = .ok p → canonKey k' = canonKey k) := by
+  have h1 : canonKey k = .ok p.text := by unfold canonKey; rw [hk]; rfl
+  refine ⟨h1, ?_, fun k' hk' => by rw [h1]; unfold canonKey; rw [hk']; rfl⟩
+  obtain ⟨p', hp', _, _, ht, _⟩ := C05_parse_print p hwf hal hdom
+  unfold canonKey parseKey
+  simp only [String.toList_ofList, hp']
+  show Except.ok p'.text = Except.ok p.text
+  rw [ht]
+
+open Bld in
+/-- **C12_default_simulation.**  `build_default_simulation(system, count)` and the variables-only
+form: `count` persons `0 … count-1`; of every group kind `count` groups bearing the same ids, person
+`i` alone in group `i` with the first role of the kind; `build_default_simulation` stores no input;
+the variables-only form has the entities of the default simulation for `_person_count` persons. -/
+theorem C12_default_simulation (sys : Sys) (count : Nat) :
+    (buildDefault sys count).store = [] ∧
+    (∃ pe rest, (buildDefault sys count).ents = pe :: rest ∧ pe.key = sys.personKey ∧ pe.isPerson = true ∧
+      pe.count = count ∧ (∀ i, i < count → pe.ids[i]? = some (toString i)) ∧
+      rest.length = sys.groups.length ∧
+      ∀ (j : Nat) (g : GroupKind), sys.groups[j]? = some g → ∃ e, rest[j]? = some e ∧ e.key = g.key ∧
+        e.count = count ∧ e.ids = pe.ids ∧
+        ∀ i, i < count → e.memb[i]? = some i ∧ e.roles[i]? = some (g.flatRoles.headD "")) ∧
+    (∀ (dp : Option String) (si : SetInput) (kvs : List (DKey × Doc)) (sim : Sim),
+      buildFromVariables sys dp si kvs = .ok sim →
+      ∃ n, personCount kvs = .ok n ∧ sim.ents = (buildDefault sys n).ents) := by
+  refine ⟨rfl, ?_, ?_⟩
+  · refine ⟨_, _, rfl, rfl, rfl, by simp [Ent.count], ?_, by simp, ?_⟩
+    · intro i hi; simp [hi]
+    · intro j g hg
+      refine ⟨⟨g.key, g.plural, false, (List.range count).map (fun (k : Nat) => toString k), List.range count,
+        List.replicate count (g.flatRoles.headD "")⟩, by simp only [List.getElem?_map, hg, Option.map_some],
+        rfl, by simp [Ent.count], rfl, ?_⟩
+      intro i hi
+      simp [hi]
+  · intro dp si kvs sim h
+    unfold buildFromVariables at h
+    cases hc : personCount kvs with
+    | error e => rw [hc] at h; cases h
+    | ok n =>
+      rw [hc] at h
+      simp only at h
+      cases h1 : foldE (datedStep sys si n) [] kvs with
+      | error e => rw [h1] at h; cases h
+      | ok s1 =>
+        rw [h1] at h
+        simp only at h
+        cases h2 : foldE (undatedStep sys dp si n) s1 kvs with
+        | error e => rw [h2] at h; cases h
+        | ok s2 => rw [h2] at h; cases h; exact ⟨n, rfl, rfl⟩
+
+open Bld in
+/-- **C12_join.**  `declare_entity` + `join_with_persons` (repair F-C11b): when the declarations are
+accepted, the group ids are the declared ones, every person is recorded in THE declared group that
+bears the id given for that person — whatever the order of the declared ids, and whether or not some
+declared group stays without member — with the role given for that person: the key itself, or the
+flattened role at the given index. -/
+theorem C12_join (sys : Sys) (npersons : Nat) (j : Joined) (e : Ent) (h : joinOne sys npersons j = .ok e) :
+    e.ids = j.ids ∧ e.memb.length = npersons ∧ e.roles.length = npersons ∧
+    (∀ (i : Nat) (a : String), j.assign[i]? = some a →
+      ∃ m, e.memb[i]? = some m ∧ j.ids[m]? = some a ∧ ∀ m', j.ids[m']? = some a → m' = m) ∧
+    (∃ g, sys.groups.find? (fun g => g.key == j.kind) = some g ∧ e.key = g.key ∧
+      ∀ (i : Nat) (r : RoleRef), j.roles[i]? = some r →
+        (∀ k, r = .key k → e.roles[i]? = some k ∧ k ∈ g.flatRoles) ∧
+        (∀ t, r = .idx t → e.roles[i]? = g.flatRoles[t]? ∧ t < g.flatRoles.length)) := by
+  unfold joinOne at h
+  cases hg : sys.groups.find? (fun g => g.key == j.kind) with
+  | none => rw [hg] at h; cases h
+  | some g =>
+    rw [hg] at h
+    simp only at h
+    split at h
+    · cases h
+    · rename_i hlen
+      have hlen' : j.assign.length = npersons ∧ j.roles.length = npersons := by
+        constructor
+        · exact Decidable.byContradiction (fun c => hlen (Or.inl c))
+        · exact Decidable.byContradiction (fun c => hlen (Or.inr c))
+      cases hm : joinMemb j.ids j.assign with
+      | error x => rw [hm] at h; cases h
+      | ok memb =>
+        rw [hm] at h
+        simp only at h
+        cases hr : joinRoles g.flatRoles j.roles with
+        | error x => rw [hr] at h; cases h
+        | ok roles =>
+          rw [hr] at h
+          cases h
+          unfold joinMemb at hm
+          split at hm
+          · rename_i hnd
+            refine ⟨rfl, ?_, ?_, ?_, g, rfl, rfl, ?_⟩
+            · show memb.length = npersons
+              rw [mapE_length _ _ _ hm]; exact hlen'.1
+            · show roles.length = npersons
+              have : roles.length = j.roles.length := by
+                unfold joinRoles at hr
+                split at hr
+                · cases hr
+                · exact mapE_length _ _ _ hr
+                · exact mapE_length _ _ _ hr
+              rw [this]; exact hlen'.2
+            · intro i a ha
+              obtain ⟨m, hm1, hm2⟩ := mapE_getElem? _ _ _ hm i a ha
+              by_cases hmem : a ∈ j.ids
+              · rw [if_pos hmem] at hm2
+                cases hm2
+                have hlt := List.idxOf_lt_length_of_mem hmem
+                refine ⟨_, hm1, ?_, ?_⟩
+                · rw [List.getElem?_eq_getElem hlt, List.getElem_idxOf hlt]
+                · intro m' hm'
+                  obtain ⟨hlt', hget⟩ := List.getElem?_eq_some_iff.mp hm'
+                  have h1 : j.ids[j.ids.idxOf a]'hlt = a := List.getElem_idxOf hlt
+                  exact (List.getElem_inj (h₀ := hlt') (h₁ := hlt) hnd).mp (by rw [hget, h1])
+              · rw [if_neg hmem] at hm2; cases hm2
+            · intro i r hri
+              unfold joinRoles at hr
+              split at hr
+              · cases hr
+              · obtain ⟨b, hb1, hb2⟩ := mapE_getElem? _ _ _ hr i r hri
+                refine ⟨?_, ?_⟩
+                · intro k hk; subst hk; simp only at hb2; cases hb2
+                · intro t ht; subst ht
+                  simp only at hb2
+                  cases hf : g.flatRoles[t]? with
+                  | none => rw [hf] at hb2; cases hb2
+                  | some k =>
+                    rw [hf] at hb2; cases hb2
+                    exact ⟨hb1, (List.getElem?_eq_some_iff.mp hf).1⟩
+              · obtain ⟨b, hb1, hb2⟩ := mapE_getElem? _ _ _ hr i r hri
+                refine ⟨?_, ?_⟩
+                · intro k hk; subst hk
+                  simp only at hb2
+                  by_cases hkm : k ∈ g.flatRoles
+                  · rw [if_pos hkm] at hb2; cases hb2; exact ⟨hb1, hkm⟩
+                  · rw [if_neg hkm] at hb2; cases hb2
+                · intro t ht; subst ht; simp only at hb2; cases hb2
+          · cases hm
+
+
+open Bld in
+/-- **C12_refuses_axis** (repair C12-errclass-axes).  A fully specified document whose entities are
+accepted and whose `axes` have the documented shape, but one of whose axes — any axis of any
+dimension — names a variable the system does not have, gives no period when the builder has no
+default period, or spells a period that does not parse, is refused with a SITUATION error (before
+anything is expanded), never with an ordinary exception. -/
+theorem C12_refuses_axis (sys : Sys) (dp : Option String) (si : SetInput) (kvs : List (DKey × Doc))
+    (st : BState) (ad : Doc) (dims : List (List Axis))
+    (haxes : getEntityDoc "axes" kvs = some ad)
+    (hb : buildEntities sys dp (kvs.filter (fun kv => !isAxesKey kv.1)) true = .ok st)
+    (hp : parseAxes ad = .ok dims)
+    (a : Axis) (ha : a ∈ dims.flatten)
+    (hbad : sys.var? a.name = none ∨ axisKey dp a = none ∨ ∃ k err, axisKey dp a = some k ∧ parseKey k = .error err) :
+    buildFromEntities sys dp si kvs = .error .situation := by
+  have hcheck : ∀ (u : Unit) (e : BErr), checkAxis sys dp a ≠ .ok u := by
+    intro u e h
+    unfold checkAxis at h
+    rcases hbad with hn | hn | ⟨k, err, hk, hpk⟩
+    · rw [hn] at h; cases h
+    · cases hv : sys.var? a.name with
+      | none => rw [hv] at h; cases h
+      | some _ => rw [hv, hn] at h; cases h
+    · cases hv : sys.var? a.name with
+      | none => rw [hv] at h; cases h
+      | some _ =>
+        rw [hv, hk] at h
+        simp only [canonKey, hpk, Except.map] at h
+        cases h
+  have hsit : ∀ (a' : Axis) (e : BErr), checkAxis sys dp a' = .error e → e = .situation := by
+    intro a' e h
+    unfold checkAxis at h
+    cases hv : sys.var? a'.name with
+    | none => rw [hv] at h; cases h; rfl
+    | some _ =>
+      rw [hv] at h
+      simp only at h
+      cases hk : axisKey dp a' with
+      | none => rw [hk] at h; cases h; rfl
+      | some k =>
+        rw [hk] at h
+        simp only at h
+        cases hc : canonKey k with
+        | error x => rw [hc] at h; cases h; rfl
+        | ok x => rw [hc] at h; cases h
+  unfold buildFromEntities
+  simp only [haxes, Option.isSome_some, hb, hp]
+  cases hf : foldE (fun (_ : Unit) a => checkAxis sys dp a) () dims.flatten with
+  | ok u =>
+    exact absurd hf (foldE_not_ok_of_mem _ a (fun s s' h => hcheck s' .situation h) dims.flatten ha () u)
+  | error e =>
+    have := foldE_error (fun (_ : Unit) a => checkAxis sys dp a) (fun e => e = .situation)
+      (fun s x e h => hsit x e h) dims.flatten () e hf
+    rw [this]
+end OFCore
 namespace OFCore.Bld
 
 /-! ## the hypotheses are satisfiable: one concrete situation -/
@@ -1091,13 +1485,23 @@ example : parseKey (.s "month:2018-01") = .ok exJan ∧ exJan.text = "2018-01".t
 example : alGet (applyWrites [] exWs) ("salary", exJan.text) = some [.num 100, .num (5/2), .num 0] := by
   decide +kernel
 example : ∃ val arr, checkSetValue exSalary (.int 100) = .ok val ∧
-    alGet (applyWrites [] exWs) (exSalary.name, exJan.text) = some arr ∧
+    alGet (applyWrites [] (resolveKeys exSys exWs)) (exSalary.name, exJan.text) = some arr ∧
     arr.length = exPersons.length ∧ arr[(["a", "b", "c"] : List String).idxOf "a"]? = some val :=
   (C12_value_placed exSys none exPersons ["a", "b", "c"] exWs (by decide +kernel) [] _ (.s "a") _ rfl
-    (by decide) [] [] (.s "salary") _ rfl (by simp) exSalary (by decide +kernel) _ [] [] rfl
+    (by decide) [] [] (.s "salary") _ rfl (by simp) exSalary (by decide +kernel) (by decide) _ [] [] rfl
     (.s "month:2018-01") (.int 100) rfl rfl exJan (by decide +kernel) (by simp)).2
+-- C12_eternal_one_entry (repair C12j): a's birth under a dated key, b's under ETERNITY: one entry, both kept
+example : isEternal exSys "birth" = true ∧
+    applyWrites [] (resolveKeys exSys [⟨"birth", "2018-01".toList, 0, .date 722848, 2, .date 719163⟩,
+      ⟨"birth", "ETERNITY".toList, 1, .date 726501, 2, .date 719163⟩]) =
+    [(("birth", "2018-01".toList), [.date 722848, .date 726501])] := by decide +kernel
+example : (buildFromDict exSys none stdSetInput (.obj [(.s "persons", .obj [
+      (.s "a", .obj [(.s "birth", .obj [(.s "2018-01", .str "1980-02-03")])]),
+      (.s "b", .obj [(.s "birth", .obj [(.s "ETERNITY", .str "1990-02-03")])])])])
+    ).toOption.map (fun s => s.store.map (fun e => (e.1.1, e.1.2.text, e.2))) =
+    some [("birth", "ETERNITY".toList, [.date 722848, .date 726501])] := by decide +kernel
 -- C12_value_default: c declares nothing: the default at c's index
-example : (alGet (applyWrites [] exWs) ("salary", exJan.text)).map (fun a => a[(["a", "b", "c"] : List String).idxOf "c"]?)
+example : (alGet (applyWrites [] (resolveKeys exSys exWs)) ("salary", exJan.text)).map (fun a => a[(["a", "b", "c"] : List String).idxOf "c"]?)
     = some (some exSalary.default) := by decide +kernel
 -- C12_value_placed_group: the rent of h at index 0, the default in the group appended for c (repair C12f)
 example : (addGroupEntity exSys none exHousehold ["a", "b", "c"] (.obj exHouseholds) []).toOption.map
@@ -1141,6 +1545,50 @@ example : (buildFromDict exSys none stdSetInput (.obj [(.s "persons", .obj exPer
     ).toOption.map (fun s => s.store.map (fun e => (e.1.1, e.1.2.text, e.2))) =
     some [("salary", "2018-01".toList, [.num 100, .num (5/2), .num 0]), ("rent", "2018-01".toList, [.num 5, .num 0])] := by
   decide +kernel
+-- C12_spelling_invariant_dict: a short-form document and a variables-only document under two spellings
+example : All₂ (DictEq exSys [(.s "persons", .obj exPersons), (.s "household", .obj [(.s "parents", .arr [.str "a", .str "b"]),
+      (.s "rent", .obj [(.s "month:2018-01", .int 5)])])])
+    [(.s "persons", .obj exPersons), (.s "household", .obj [(.s "parents", .arr [.str "a", .str "b"]),
+      (.s "rent", .obj [(.s "month:2018-01", .int 5)])])]
+    [(.s "persons", .obj exPersons'), (.s "household", .obj [(.s "parents", .arr [.str "a", .str "b"]),
+      (.s "rent", .obj [(.s "2018-01", .int 5)])])] := by
+  refine .cons ⟨rfl, ?_⟩ (.cons ⟨rfl, ?_⟩ .nil)
+  · rw [if_pos (by decide +kernel), if_neg (by decide +kernel)]
+    refine Or.inr ⟨_, _, rfl, rfl, ?_⟩
+    refine .cons ⟨rfl, Or.inr ⟨_, _, rfl, rfl, ?_⟩⟩ (.cons ⟨rfl, Or.inr ⟨_, _, rfl, rfl, ?_⟩⟩ (.cons ⟨rfl, Or.inl rfl⟩ .nil))
+    · exact .cons ⟨rfl, Or.inr ⟨_, _, rfl, rfl, .cons ⟨by decide +kernel, rfl⟩ .nil⟩⟩ .nil
+    · exact .cons ⟨rfl, Or.inr ⟨_, _, rfl, rfl, .cons ⟨by decide +kernel, rfl⟩ .nil⟩⟩ .nil
+  · rw [if_pos (by decide +kernel), if_pos (by decide +kernel)]
+    refine Or.inr ⟨_, _, rfl, rfl, ?_⟩
+    exact .cons ⟨rfl, Or.inl rfl⟩ (.cons ⟨rfl, Or.inr ⟨_, _, rfl, rfl, .cons ⟨by decide +kernel, rfl⟩ .nil⟩⟩ .nil)
+example : (buildFromDict exSys none stdSetInput (.obj [(.s "persons", .obj exPersons), (.s "household", .obj [(.s "parents", .arr [.str "a", .str "b"]),
+      (.s "rent", .obj [(.s "month:2018-01", .int 5)])])])).toOption.map (fun s => s.ents.map (·.ids)) =
+    some [["a", "b", "c"], ["household", "c"]] := by decide +kernel
+example : All₂ (DictEq exSys [(.s "salary", .obj [(.s "month:2018-01", .arr [.int 1, .int 2])])])
+    [(.s "salary", .obj [(.s "month:2018-01", .arr [.int 1, .int 2])])]
+    [(.s "salary", .obj [(.s "2018-01", .arr [.int 1, .int 2])])] := by
+  refine .cons ⟨rfl, ?_⟩ .nil
+  rw [if_neg (by decide +kernel), if_neg (by decide +kernel), if_pos (by decide +kernel)]
+  exact Or.inr ⟨_, _, rfl, rfl, .cons ⟨by decide +kernel, rfl⟩ .nil⟩
+example : (buildFromDict exSys none stdSetInput (.obj [(.s "salary", .obj [(.s "month:2018-01", .arr [.int 1, .int 2])])])
+    ).toOption.map (fun s => s.store.map (fun e => (e.1.1, e.1.2.text, e.2))) =
+    some [("salary", "2018-01".toList, [.num 1, .num 2])] := by decide +kernel
+-- C12_canon_key: January 2018 under the spelling "month:2018-01"
+example : parseKey (.s "month:2018-01") = .ok exJan ∧ exJan.WF ∧ OwnAligned exJan ∧ InTextDomain exJan ∧
+    canonKey (.s (String.ofList exJan.text)) = .ok "2018-01".toList := by
+  refine ⟨by decide +kernel, by decide, rfl, ⟨by decide, by decide, by intro h; rcases h with h | h <;> cases h⟩, by decide +kernel⟩
+-- C12_axes_parallel_concat: two parallel axes (salary of a, salary of b at another month) over 2 copies of 3 persons
+def exAxes : List Axis := [⟨"salary", 2, 0, 10, 0, some (.s "2018-01")⟩, ⟨"salary", 2, 5, 7, 1, some (.s "month:2018-02")⟩]
+example : (exAxes.map (axisCell none)).Nodup ∧
+    (foldE (layAxis exSys none "person" 3 2 2 false [0, 1]) [(("salary", "2018-01".toList), [.num 100, .num (5/2), .num 0])] exAxes
+      ).toOption = some [(("salary", "2018-01".toList), [.num 0, .num (5/2), .num 0, .num 10, .num (5/2), .num 0]),
+        (("salary", "2018-02".toList), [.num 0, .num 5, .num 0, .num 0, .num 7, .num 0])] := by decide +kernel
+-- C12_default_simulation, C12_join
+example : (buildDefault exSys 2).ents = [⟨"person", "persons", true, ["0", "1"], [], []⟩,
+    ⟨"household", "households", false, ["0", "1"], [0, 1], ["first_parent", "first_parent"]⟩] := by decide +kernel
+example : joinOne exSys 3 ⟨"household", ["h9", "h10", "a"], ["a", "h9", "a"], [.idx 2, .idx 1, .idx 0]⟩ =
+    .ok ⟨"household", "households", false, ["h9", "h10", "a"], [2, 0, 2], ["child", "second_parent", "first_parent"]⟩ := by
+  decide +kernel
 -- C12_axes_concat: two copies, the axis value on the first person of each copy
 example : strideSet (tile 2 [.num 9, .num 0]) 0 2 [.num 1, .num 3] = .ok [.num 1, .num 0, .num 3, .num 0] := by
   decide +kernel
@@ -1150,6 +1598,14 @@ example : (expandEnt 2 ⟨"household", "households", false, ["h", "c"], [0, 0, 1
 -- unparsable period, duplicate membership, too many parents
 example : buildEntities exSys none [(.s "persons", .obj exPersons), (.s "companies", .obj [])] false = .error .situation :=
   (C12_refuses_unknown_entity exSys none _ false).1 (by decide +kernel)
+-- repair C12-errclass-axes: an axis over an unknown variable, or without any period, is a situation error
+example : (match buildFromDict exSys none stdSetInput (.obj [(.s "persons", .obj exPersons), (.s "households", .obj exHouseholds),
+      (.s "axes", .arr [.arr [.obj [(.s "name", .str "zz"), (.s "count", .int 2), (.s "min", .int 0), (.s "max", .int 1),
+        (.s "period", .str "2018-01")]]])]) with | .error e => some e | .ok _ => none) = some .situation ∧
+    (match buildFromDict exSys none stdSetInput (.obj [(.s "persons", .obj exPersons), (.s "households", .obj exHouseholds),
+      (.s "axes", .arr [.arr [.obj [(.s "name", .str "salary"), (.s "count", .int 2), (.s "min", .int 0), (.s "max", .int 1)]]])])
+      with | .error e => some e | .ok _ => none) = some .situation := by
+  constructor <;> decide +kernel
 example : exSys.RolesOK := by intro g hg; simp [exSys] at hg; subst hg; decide
 example : exSys.var? "zzz" = none := by decide +kernel
 example : checkSetValue exStatus (.str "widowed") = .error .situation := by decide +kernel
